@@ -695,6 +695,10 @@ func (d *Driver) apiCall(in *Inst, o *elObj, a *Action, ev *ApiEvt) {
 				d.probe("noop_stop_overtook_start")
 			}
 		}
+		if err != nil && err != leader.ErrAlreadyStopped {
+			// (whatever else happened meanwhile: a StopWithContext that failed promises no OnDemote)
+			o.failedStop = true
+		}
 		if in.nStarted != ev.startsAtInv {
 			// a Start succeeded while this stop call was in progress: a new run began, and this
 			// call's return is not "the instance is stopped"
